@@ -190,6 +190,71 @@ theorem send_inv (c : Codec α) (good : α → Prop) (hc : c.Lossless good) (z :
       obtain ⟨hi2, hs2, hb2⟩ := hsend
       exact ⟨flush_inv c z p2 _ hi2, by simp [Pub.flush, hs2, hs1], by simp [Pub.flush, hb2, hb1]⟩
 
+/-- one `feed(item)` (accepted, not flushed) that returns `Ok` keeps the accounting -/
+theorem feed_inv (c : Codec α) (good : α → Prop) (hc : c.Lossless good) (z : Compressor) (hz : z.Lossless) (lim : Nat)
+    (p : Pub) (sent : List α) (elapsed : Bool) (a : α) (ha : good a) (h : PubInv c z p sent)
+    (hgood : ∀ x ∈ sent, good x) (hfit : ∀ (pend : List α) ms, mapRes c.encode pend = .ok ms → Fits ms)
+    (p' : Pub) (hok : p.feed c z lim elapsed a = .ok p') :
+    PubInv c z p' (sent ++ [a]) ∧ p'.size = p.size ∧ (p'.batch.isSome = p.batch.isSome) := by
+  obtain ⟨b, he, hd⟩ := hc a ha
+  unfold Pub.feed at hok
+  -- poll_ready
+  cases hr1 : p.pollReady z lim elapsed with
+  | err e => simp [hr1] at hok
+  | panic e => simp [hr1] at hok
+  | ok p1 =>
+    simp only [hr1] at hok
+    have hready : PubInv c z p1 sent ∧ p1.size = p.size ∧ p1.batch.isSome = p.batch.isSome := by
+      unfold Pub.pollReady at hr1
+      cases hb : p.batch with
+      | none => simp only [hb, Res.ok.injEq] at hr1; subst hr1; exact ⟨h, rfl, by simp [hb]⟩
+      | some ms =>
+        simp only [hb] at hr1
+        split at hr1
+        · obtain ⟨h2, h3, h4⟩ := sendBatch_inv c good hc z hz lim p sent ms hb h hgood (fun pend hp => hfit pend ms hp) p1 hr1
+          exact ⟨h2, h4, by simp [h3]⟩
+        · simp only [Res.ok.injEq] at hr1; subst hr1; exact ⟨h, rfl, by simp [hb]⟩
+    obtain ⟨hi1, hs1, hb1⟩ := hready
+    -- start_send
+    cases hr2 : p1.startSend c z lim a with
+    | err e => rw [hr2] at hok; cases hok
+    | panic e => rw [hr2] at hok; cases hok
+    | ok p2 =>
+      have hp2 : p2 = p' := by rw [hr2] at hok; exact Res.ok.inj hok
+      subst hp2
+      have hsend : PubInv c z p2 (sent ++ [a]) ∧ p2.size = p1.size ∧ p2.batch.isSome = p1.batch.isSome := by
+        unfold Pub.startSend at hr2
+        rw [he] at hr2
+        obtain ⟨pend, hp, hacc⟩ := hi1.acc
+        cases hb : p1.batch with
+        | some ms =>
+          simp only [hb, Res.ok.injEq] at hr2 hp
+          subst hr2
+          refine ⟨⟨hi1.noOther, pend ++ [a], ?_, ?_⟩, rfl, by simp [hb]⟩
+          · exact mapRes_append_ok c.encode pend a ms b hp he
+          · simp only [List.map_append, List.map_cons, List.map_nil, ← List.append_assoc, hacc]
+        | none =>
+          simp only [hb] at hr2 hp
+          subst hp
+          obtain ⟨w, hcz, hdz⟩ := hz b
+          simp only [hcz] at hr2
+          split at hr2
+          case isFalse => simp at hr2
+          simp only [Res.ok.injEq] at hr2
+          subst hr2
+          refine ⟨⟨?_, [], by simp [hb], ?_⟩, rfl, by simp [hb]⟩
+          · intro f hf
+            simp only [List.mem_append, List.mem_singleton] at hf
+            rcases hf with hf | hf | hf
+            · exact hi1.noOther f (by simp [hf])
+            · exact hi1.noOther f (by simp [hf])
+            · rw [hf]; simp
+          · simp only [List.map_nil, List.append_nil] at hacc ⊢
+            rw [← List.append_assoc, subscriberOutputs_append c z _ _ hi1.noOther]
+            simp [subscriberOutputs, hdz, hd, hacc]
+      obtain ⟨hi2, hs2, hb2⟩ := hsend
+      exact ⟨hi2, by rw [hs2, hs1], by rw [hb2, hb1]⟩
+
 /-- For every configuration — lossless codec, self-inverting compressor (or none), batching off or on with
     any size and any clock, any frame limit — whenever every `send` and `finish()` returned `Ok`, the subscriber
     yields exactly the items accepted, in the order sent, each once, with equal values; and `finish()` has handed
@@ -279,6 +344,143 @@ theorem c03_fidelity_partial (c : Codec α) (good : α → Prop) (hc : c.Lossles
         | panic s => simp [hx] at hpe
   rw [hpend, hf3] at hacc
   simpa using hacc
+
+/-- `finish()` on a publisher whose accounting is intact: whatever is still batched or sitting in the framed writer
+    is handed to the transport; the subscriber's outputs are exactly the accepted items -/
+theorem finish_spec (c : Codec α) (good : α → Prop) (hc : c.Lossless good) (z : Compressor) (hz : z.Lossless)
+    (lim : Nat) (sent : List α) (hsentgood : ∀ x ∈ sent, good x)
+    (hfit : ∀ (pend : List α) ms, mapRes c.encode pend = .ok ms → Fits ms)
+    (p pf : Pub) (hinv : PubInv c z p sent) (hfinish : p.finish z lim = .ok pf) :
+    subscriberOutputs c z pf.wire = sent.map Res.ok ∧
+      pf.framed = [] ∧ (pf.batch = none ∨ pf.batch = some []) := by
+  -- finish
+  have hfin : PubInv c z pf (sent) ∧ pf.framed = [] ∧ (pf.batch = none ∨ pf.batch = some []) := by
+    unfold Pub.finish at hfinish
+    cases hb : p.batch with
+    | none => simp only [hb, Res.ok.injEq] at hfinish; subst hfinish; exact ⟨flush_inv c z p _ hinv, rfl, Or.inl (by simp [Pub.flush, hb])⟩
+    | some ms =>
+      cases ms with
+      | nil => simp only [hb, Res.ok.injEq] at hfinish; subst hfinish; exact ⟨flush_inv c z p _ hinv, rfl, Or.inr (by simp [Pub.flush, hb])⟩
+      | cons m ms =>
+        simp only [hb] at hfinish
+        cases h1 : p.sendBatch z lim (m :: ms) with
+        | err er => simp [h1] at hfinish
+        | panic er => simp [h1] at hfinish
+        | ok p' =>
+          simp only [h1, Res.ok.injEq] at hfinish
+          subst hfinish
+          obtain ⟨h2, h3, _⟩ := sendBatch_inv c good hc z hz lim p _ (m :: ms) hb hinv hsentgood (fun pend hp => hfit pend _ hp) p' h1
+          exact ⟨flush_inv c z p' _ h2, rfl, Or.inr (by simp [Pub.flush, h3])⟩
+  obtain ⟨hf2, hf3, hf4⟩ := hfin
+  refine ⟨?_, hf3, hf4⟩
+  obtain ⟨pend, hpe, hacc⟩ := hf2.acc
+  have hpend : pend = [] := by
+    rcases hf4 with h | h
+    · simpa [h] using hpe
+    · simp only [h] at hpe
+      cases pend with
+      | nil => rfl
+      | cons x xs =>
+        simp only [mapRes] at hpe
+        cases hx : c.encode x with
+        | ok y =>
+          simp only [hx] at hpe
+          cases hr : mapRes c.encode xs <;> simp [hr] at hpe
+        | err e => simp [hx] at hpe
+        | panic s => simp [hx] at hpe
+  rw [hpend, hf3] at hacc
+  simpa using hacc
+
+/-- a bare `poll_ready` that returns `Ok` keeps the accounting (it may frame the batch) -/
+theorem pollReady_inv (c : Codec α) (good : α → Prop) (hc : c.Lossless good) (z : Compressor) (hz : z.Lossless) (lim : Nat)
+    (p : Pub) (sent : List α) (elapsed : Bool) (h : PubInv c z p sent)
+    (hgood : ∀ x ∈ sent, good x) (hfit : ∀ (pend : List α) ms, mapRes c.encode pend = .ok ms → Fits ms)
+    (p1 : Pub) (hr1 : p.pollReady z lim elapsed = .ok p1) : PubInv c z p1 sent := by
+  unfold Pub.pollReady at hr1
+  cases hb : p.batch with
+  | none => simp only [hb, Res.ok.injEq] at hr1; subst hr1; exact h
+  | some ms =>
+    simp only [hb] at hr1
+    split at hr1
+    · exact (sendBatch_inv c good hc z hz lim p sent ms hb h hgood (fun pend hp => hfit pend ms hp) p1 hr1).1
+    · simp only [Res.ok.injEq] at hr1; subst hr1; exact h
+
+/-- one step of any of the ways of driving the sink keeps the accounting -/
+theorem apply_inv (c : Codec α) (good : α → Prop) (hc : c.Lossless good) (z : Compressor) (hz : z.Lossless) (lim : Nat)
+    (p : Pub) (sent : List α) (op : PubOp α) (hop : ∀ a ∈ op.item, good a) (h : PubInv c z p sent)
+    (hgood : ∀ x ∈ sent, good x) (hfit : ∀ (pend : List α) ms, mapRes c.encode pend = .ok ms → Fits ms)
+    (p' : Pub) (hok : p.apply c z lim op = .ok p') : PubInv c z p' (sent ++ op.item) := by
+  cases op with
+  | send e a => exact (send_inv c good hc z hz lim p sent e a (hop a (by simp [PubOp.item])) h hgood hfit p' hok).1
+  | feed e a => exact (feed_inv c good hc z hz lim p sent e a (hop a (by simp [PubOp.item])) h hgood hfit p' hok).1
+  | flush =>
+    simp only [Pub.apply, Res.ok.injEq] at hok
+    subst hok
+    simpa [PubOp.item] using flush_inv c z p sent h
+  | ready e =>
+    simp only [Pub.apply] at hok
+    simpa [PubOp.item] using pollReady_inv c good hc z hz lim p sent e h hgood hfit p' hok
+
+/-- C03 for every way of driving the publisher's `Sink`: any mix of `send(item)` (accepted and flushed),
+    `feed(item)` (accepted, nothing flushed), `flush()` and bare `poll_ready` calls, under any clock, with batching on or off — whenever every
+    operation and the final `finish()` returned `Ok`, the subscriber yields exactly the accepted items in order, each
+    once, and `finish()` has handed everything to the transport: what was fed but never flushed, a batch that filled up
+    exactly on the last `poll_ready`, a partial batch. -/
+theorem c03_fidelity_any_driving_partial (c : Codec α) (good : α → Prop) (hc : c.Lossless good) (z : Compressor)
+    (hz : z.Lossless) (lim : Nat) (batchSize : Option Nat) (ops : List (PubOp α))
+    (hgood : ∀ op ∈ ops, ∀ a ∈ op.item, good a)
+    (hfit : ∀ (pend : List α) ms, mapRes c.encode pend = .ok ms → Fits ms)
+    (p pf : Pub)
+    (hrun : ({ batch := batchSize.map (fun _ => []), size := batchSize.getD 0 } : Pub).applyAll c z lim ops = .ok p)
+    (hfinish : p.finish z lim = .ok pf) :
+    subscriberOutputs c z pf.wire = (ops.flatMap PubOp.item).map Res.ok ∧
+      pf.framed = [] ∧ (pf.batch = none ∨ pf.batch = some []) := by
+  have hall : ∀ (os : List (PubOp α)) (p0 : Pub) (sent : List α), PubInv c z p0 sent → (∀ x ∈ sent, good x) →
+      (∀ op ∈ os, ∀ a ∈ op.item, good a) → ∀ p', p0.applyAll c z lim os = .ok p' →
+      PubInv c z p' (sent ++ os.flatMap PubOp.item) ∧ (∀ x ∈ sent ++ os.flatMap PubOp.item, good x) := by
+    intro os
+    induction os with
+    | nil =>
+      intro p0 sent h hs _ p' hp'
+      simp only [Pub.applyAll, Res.ok.injEq] at hp'; subst hp'
+      exact ⟨by simpa using h, by simpa using hs⟩
+    | cons op rest ih =>
+      intro p0 sent h hs hx p' hp'
+      simp only [Pub.applyAll] at hp'
+      cases h1 : p0.apply c z lim op with
+      | err er => simp [h1] at hp'
+      | panic er => simp [h1] at hp'
+      | ok p1 =>
+        simp only [h1] at hp'
+        have hi1 := apply_inv c good hc z hz lim p0 sent op (hx op (by simp)) h hs hfit p1 h1
+        have hs' : ∀ y ∈ sent ++ op.item, good y := by
+          intro y hy
+          simp only [List.mem_append] at hy
+          rcases hy with hy | hy
+          · exact hs y hy
+          · exact hx op (by simp) y hy
+        obtain ⟨hi2, hg2⟩ := ih p1 (sent ++ op.item) hi1 hs' (fun o ho => hx o (by simp [ho])) p' hp'
+        exact ⟨by simpa [List.append_assoc] using hi2, by simpa [List.append_assoc] using hg2⟩
+  have h0 : PubInv c z ({ batch := batchSize.map (fun _ => []), size := batchSize.getD 0 } : Pub) [] := by
+    constructor
+    · intro f hf; simp at hf
+    · cases batchSize with
+      | none => exact ⟨[], rfl, rfl⟩
+      | some n => exact ⟨[], rfl, rfl⟩
+  obtain ⟨hinv, hg⟩ := hall ops _ [] h0 (by intro x hx; simp at hx) hgood p hrun
+  simp only [List.nil_append] at hinv hg
+  exact finish_spec c good hc z hz lim _ hg hfit p pf hinv hfinish
+
+/-- what the unflushed hand-over looks like on a concrete publisher: three items fed, none flushed, batch size 3 filled
+    exactly by the third; `finish()` hands all of them over -/
+example :
+    (match ({ batch := some [], size := 3 } : Pub).applyAll bytesCodec noCompression 1000
+        [.feed false [65], .feed false [66], .feed false [67], .feed false [68]] with
+     | .ok p => (p.wire.length, p.framed.length,
+                 match p.finish noCompression 1000 with
+                 | .ok pf => subscriberOutputs bytesCodec noCompression pf.wire
+                 | _ => [.err "finish"])
+     | _ => (0, 0, [])) = (0, 1, [.ok [65], .ok [66], .ok [67], .ok [68]]) := by decide +kernel
 
 /-- A known finding, stated on the model (`known_findings.json`, C03-oversize-batch): when a batch outgrows the
     frame limit, `send_batch` has already drained it when the framed writer refuses the frame — the `send` that
@@ -392,6 +594,11 @@ end Selium.Client
 #print axioms Selium.Client.flush_inv
 #print axioms Selium.Client.send_inv
 #print axioms Selium.Client.c03_fidelity_partial
+#print axioms Selium.Client.feed_inv
+#print axioms Selium.Client.finish_spec
+#print axioms Selium.Client.pollReady_inv
+#print axioms Selium.Client.apply_inv
+#print axioms Selium.Client.c03_fidelity_any_driving_partial
 #print axioms Selium.Client.c03_subscriber_state_machine_refines_outputs
 #print axioms Selium.Client.fromPub_all
 #print axioms Selium.Client.c03_end_to_end_through_the_router_partial
